@@ -165,7 +165,13 @@ class SgzReader(object):
             self.padded_header_entry_length_bytes = self.header_entry_length_bytes
 
         self.segy_traceheader_template = self._decode_traceheader_template()
-        self.stored_header_keys = [k for k, v in self.segy_traceheader_template.items() if isinstance(v, FileOffset)]
+        # Duplicated header words share one array: list each stored array once, in file order
+        self.stored_header_keys = []
+        stored_offsets = []
+        for k, v in self.segy_traceheader_template.items():
+            if isinstance(v, FileOffset) and v not in stored_offsets:
+                self.stored_header_keys.append(k)
+                stored_offsets.append(v)
         self.file_text_header = self.headerbytes[DISK_BLOCK_BYTES:
                                                  DISK_BLOCK_BYTES + SEGY_TEXT_HEADER_BYTES]
 
